@@ -55,14 +55,22 @@ def main():
         regress = run_tests(wt, f"{prop}{x}")
         meta["baseline_regressions_with_change"] = regress
     sh("git checkout -- src", cwd=wt)
-    rc, out = sh(f"git -C /repo apply {patch}")
-    if rc != 0:
-        print("patch does not apply to /repo:", out)
-        return 1
+    # the checks run on a scratch copy of /repo's sources with the patch applied (never on /repo itself, so that
+    # several validations can run side by side and the evidence files keep describing /repo)
+    import shutil
+    scratch = f"/tmp/scratch/tc_{rnd or 'tw'}_{prop}_{x}"
+    shutil.rmtree(scratch, ignore_errors=True)
+    os.makedirs(scratch)
     try:
-        rc, out = sh("./nv all", cwd=VERIF)
+        sh(f"cp -r /repo/src {scratch}/src && cp -r /repo/docs {scratch}/docs")
+        rc, out = sh(f"git apply -p1 {patch}", cwd=scratch)
+        if rc != 0:
+            print("patch does not apply to /repo's sources:", out)
+            return 1
+        rc, out = sh(f"./nv all --repo {scratch}", cwd=VERIF)
+        out = out.replace(scratch + "/", "")
     finally:
-        sh("git -C /repo checkout -- .")
+        shutil.rmtree(scratch, ignore_errors=True)
     fired = sorted({l.split()[1].split("=")[1] for l in out.splitlines() if l.startswith("VIOLATION property=")})
     errors = [l[:400] for l in out.splitlines() if l.startswith("ANALYSIS-ERROR")]
     details = [l for l in out.splitlines() if ": C" in l and " -- " in l][:12]
